@@ -92,7 +92,9 @@ def _one(args):
     # variants are written against the *normalised* module text
     # (ast.unparse), so repository formatting does not matter
     src = _norm(ix, rel)
-    if src is not None and old.startswith('re:'):
+    if src is not None and old == '\1direct':
+        msrc = new
+    elif src is not None and old.startswith('re:'):
         # whole-file regular-expression rewrite (e.g. renaming a local everywhere)
         import re
         msrc, n = re.subn(old[3:], new, src)
@@ -137,8 +139,35 @@ def _one(args):
         return (kind, name, 'silent', '')
 
 
+def _guard_variants(mod, ix):
+    """UNCONDITIONAL = [(relpath, statement prefix), ...]: each named simple statement,
+    wrapped in `if _SWEEP_:` (so that it may be skipped), must be reported."""
+    out = []
+    for ent in getattr(mod, 'UNCONDITIONAL', []):
+        rel, prefix = ent[0], ent[1]
+        which = ent[2] if len(ent) > 2 else None        # k-th of several identical statements
+        src = _norm(ix, rel)
+        name = 'skip:%s:%s' % (rel.rsplit('/', 1)[-1], prefix[:40])
+        if src is None:
+            out.append((name, rel, '\0missing', '', None))
+            continue
+        lines = src.split('\n')
+        hits = [i for i, l in enumerate(lines) if l.strip().startswith(prefix)]
+        if which is not None and which < len(hits):
+            hits = [hits[which]]
+            name += '#%d' % which
+        if len(hits) != 1:
+            out.append((name, rel, '\0%d matches' % len(hits), '', None))
+            continue
+        l = lines[hits[0]]
+        ind = l[:len(l) - len(l.lstrip())]
+        lines[hits[0]] = ind + 'if _SWEEP_:\n' + ind + '    ' + l.strip()
+        out.append((name, rel, '\1direct', '\n'.join(lines), None))
+    return out
+
+
 def selftest(prop, mod, ix, R, seed=0):
-    muts = list(getattr(mod, 'MUTANTS', []))
+    muts = list(getattr(mod, 'MUTANTS', [])) + _guard_variants(mod, ix)
     eqs = list(getattr(mod, 'EQUIVALENTS', []))
     jobs = [('mutant',) + tuple(m) for m in muts] + \
            [('equiv',) + tuple(e) + (None,) for e in eqs]
